@@ -109,6 +109,9 @@ def run(d, tier="quick", props=None, inplace=False):
             drop_tree(tree)
     res["detected"] = any(c["exit"] == 1 and c["violation_line"] for c in res["checks"].values())
     json.dump(res, open(os.path.join(d, "result.json"), "w"), indent=1)
+    # the run regenerated lean/EaselModel/Generated from the mutant: put /repo's version back
+    sh(["python3", "-c", "import sys; sys.path.insert(0, %r); import importlib; from vlib import engine\n"
+        "for p in %r: engine.regenerate_only(importlib.import_module('props.' + p.lower()).SPEC)" % (ROOT, props)], cwd=ROOT)
     return res
 
 
